@@ -310,3 +310,15 @@ def gen_values(rng, coords, kind='field'):
     else:
         raise ValueError(kind)
     return v
+
+
+def as_caller_dtype(rng, arr, p=0.4):
+    """the same numbers as the caller might hold them: integer-valued arrays as (unsigned) integer dtypes, others
+    unchanged - value-preserving, so every oracle computed from the float copy stays valid"""
+    a = np.asarray(arr)
+    if a.size and np.all(a == np.round(a)) and np.all(np.abs(a) < 30000) and rng.random() < p:
+        kinds = ['int64', 'int32', 'int16']
+        if a.min() >= 0:
+            kinds += ['uint16', 'uint32'] + (['uint8'] if a.max() < 256 else [])
+        return a.astype(str(rng.choice(kinds)))
+    return a
